@@ -299,4 +299,27 @@ theorem solver_call_spec (fwhm tMax : ℝ) (targets : List (List ℝ × List ℝ
   · intro h; simp [Adv.call, h]
   · intro m h; simp [Adv.call, h]
 
+/-- **rate arrays of a target**: one column per stored time; a device-wide rate (one row) keeps its single row for every target, every other
+rate has exactly the `ub − lb = Z + 1` rows of the target — rows `[lb, ub)` of the joint array -/
+theorem assembleRate_spec {β : Type} (cols : List (List β)) (lb ub nq : ℕ) (hlu : lb ≤ ub) (hub : ub ≤ nq) :
+    (assembleRate cols lb ub).length = cols.length ∧
+    (∀ c ∈ cols, c.length = 1 → ∀ k (h : k < (assembleRate cols lb ub).length) (hk : k < cols.length), cols[k] = c →
+        (assembleRate cols lb ub)[k] = c) ∧
+    (∀ k (h : k < (assembleRate cols lb ub).length) (hk : k < cols.length), cols[k].length = nq → nq ≠ 1 →
+        (assembleRate cols lb ub)[k] = rows cols[k] lb ub ∧ ((assembleRate cols lb ub)[k]).length = ub - lb) := by
+  refine ⟨by simp [assembleRate], ?_, ?_⟩
+  · intro c _ hc1 k h hk e
+    simp only [assembleRate, List.getElem_map, e, hc1, if_true]
+  · intro k h hk hlen hne
+    have hne' : ¬ cols[k].length = 1 := by rw [hlen]; exact hne
+    simp only [assembleRate, List.getElem_map, hne', if_false, true_and]
+    rw [rows_length]
+    omega
+
+/-- the rate columns stored by `_gather_rates` are the kernel's rates at the stored solution points, in order -/
+theorem gatherRates_spec {κ β γ : Type} (rates : γ → List (κ × List β)) (points : List γ) :
+    (gatherRates rates points).length = points.length ∧
+    ∀ k (h : k < (gatherRates rates points).length) (hk : k < points.length), (gatherRates rates points)[k] = rates points[k] := by
+  refine ⟨by simp [gatherRates], fun k h hk => by simp [gatherRates]⟩
+
 end C18
